@@ -228,6 +228,11 @@ void SPxBasisBase<R>::removedRows(const int perm[])
    }
 
    reDim();
+
+   // in column representation the basis matrix has a new dimension; set it up again from the descriptor, otherwise
+   // baseId() keeps returning the ids of the old basis (or garbage) until the next factorization
+   if(theLP->rep() == SPxSolverBase<R>::COLUMN && status() > NO_PROBLEM)
+      loadDesc(thedesc);
 }
 
 template <class R>
@@ -416,6 +421,10 @@ void SPxBasisBase<R>::removedCols(const int perm[])
    }
 
    reDim();
+
+   // in row representation the basis matrix has a new dimension; set it up again from the descriptor (see removedRows())
+   if(theLP->rep() == SPxSolverBase<R>::ROW && status() > NO_PROBLEM)
+      loadDesc(thedesc);
 }
 
 
